@@ -708,7 +708,20 @@ func clockFromCall(f, cl *ssa.Function, mc *ssa.MakeClosure, v ssa.Value) bool {
 // entries that are present for the whole traversal.
 func c07Q1Collect(r *Run, rep *core.Report, f *ssa.Function) {
 	isSlotLoad := func(v ssa.Value) bool {
-		ld, ok := core.StripConv(v).(*ssa.UnOp)
+		v = core.StripConv(v)
+		if c, isCall := v.(*ssa.Call); isCall {
+			// the slot read through its typed-atomic method (b.keys[i].Load()) or the function form
+			if op, addr, isAt := core.AtomicOp(c); isAt && op == "Load" {
+				if k, _ := slotKind(r, addr); k == "slot" {
+					return true
+				}
+				if ia, isIA := addr.(*ssa.IndexAddr); isIA && isBucketOwner(r, core.Addr(ia).Owner) {
+					return true
+				}
+			}
+			return false
+		}
+		ld, ok := v.(*ssa.UnOp)
 		if !ok || ld.Op != token.MUL {
 			return false
 		}
